@@ -1,12 +1,15 @@
 package values
 
 import (
+	"reflect"
 	"sync"
 )
 
 type drop interface {
 	ToLiquid() any
 }
+
+var dropType = reflect.TypeOf((*drop)(nil)).Elem()
 
 // ToLiquid converts an object to Liquid, if it implements the Drop interface.
 func ToLiquid(value any) any {
@@ -15,6 +18,10 @@ func ToLiquid(value any) any {
 		d, ok := value.(drop)
 		if !ok {
 			break
+		}
+		// a nil pointer to a type whose ToLiquid has a value receiver cannot be asked: it is nil
+		if rv := reflect.ValueOf(d); rv.Kind() == reflect.Ptr && rv.IsNil() && rv.Type().Elem().Implements(dropType) {
+			return nil
 		}
 		value = d.ToLiquid()
 	}
